@@ -421,8 +421,9 @@ class C18(Base):
     ops = ['tn', 'dec', 'stream']
     rule = ('bounded-exhaustive strings over {/,+,#,$,a,NUL,2-,3-,4-byte chars} (quick: length <= 4, thorough <= 6) behind 12 '
             'prefix shapes, random strings up to length 9, long strings at 65,533..65,537 bytes, UTF-8 boundary sequences; '
-            'the same strings as PUBLISH topic, will topic (v3, v5) and Response Topic (PUBLISH and will properties). '
-            'Non-trivial: non-empty string.')
+            'the same strings as PUBLISH topic, will topic (v3, v5) and Response Topic (PUBLISH and will properties), each also '
+            'under one random flag combination; the eight shortest strings under every level / clean-session / will-QoS / '
+            'will-retain / PUBLISH dup-retain-QoS combination. Non-trivial: non-empty string.')
 
     def cases(self, rng, tier):
         cs = self.corpus()
@@ -435,12 +436,33 @@ class C18(Base):
             hist(dist, 'tn')
         sub = [s for s in pool if len(s) <= 65535 and utf8_ok(s)]
         step = max(1, len(sub) // (4000 if tier == 'quick' else 60000))
+        # the shortest strings (the empty one first) additionally under every will QoS / will-retain / PUBLISH flag combination
+        # (C18-r6-1: an empty will topic refused only when the will-retain bit is set)
+        short = [b'', b'/', b'a', b'$SYS/', b'$share/', b'a+', b'#', b'\x00']
+        for s in short:
+            combos = [('v3', 'name', ('connect', lvl, cl, 10, b'c', (wq, wr, s, b'm'), None, None))
+                      for lvl in (3, 4) for cl in (0, 1) for wq in (0, 1, 2) for wr in (0, 1)]
+            combos += [('v5', 'name', ('connect', 5, cl, 10, ({}, []), b'c', (wq, wr, ({}, []), s, b'm'), None, None))
+                       for cl in (0, 1) for wq in (0, 1, 2) for wr in (0, 1)]
+            combos += [(fam, 'name', ('publish', dup, ret, q, 9 if q else 0, s) + (() if fam == 'v3' else (({}, []),)) + (b'pl',))
+                       for fam in ('v3', 'v5') for dup in (0, 1) for ret in (0, 1) for q in (0, 1, 2)]
+            for fam, where, p in combos:
+                c = 'dec %s %s' % (fam, pk.hx(pk.encode(fam, p)))
+                self.meta[c] = (where, s)
+                cs.append(c)
+                hist(dist, 'dec-flags:%s:%s' % (p[0], where))
         for s in sub[::step] + [s for s in sub if len(s) > 60000]:
+            wq, wr, cl = rng.randint(0, 2), rng.randint(0, 1), rng.randint(0, 1)
+            dup, ret, q = rng.randint(0, 1), rng.randint(0, 1), rng.randint(0, 2)
             frames = [
                 ('v3', 'name', ('publish', 0, 0, 1, 9, s, b'pl')),
                 ('v5', 'name', ('publish', 0, 1, 0, 0, s, ({}, []), b'pl')),
                 ('v3', 'name', ('connect', 4, 1, 10, b'c', (1, 0, s, b'm'), None, None)),
                 ('v5', 'name', ('connect', 5, 1, 10, ({}, []), b'c', (1, 0, ({}, []), s, b'm'), None, None)),
+                ('v3', 'name', ('publish', dup, ret, q, 9 if q else 0, s, b'pl')),
+                ('v5', 'name', ('publish', dup, ret, q, 9 if q else 0, s, ({}, []), b'pl')),
+                ('v3', 'name', ('connect', rng.choice([3, 4]), cl, 10, b'c', (wq, wr, s, b'm'), b'u', b'p')),
+                ('v5', 'name', ('connect', 5, cl, 10, ({}, []), b'c', (wq, wr, ({}, []), s, b'm'), b'u', b'p')),
             ]
             if len(s) < 65000:
                 frames += [('v5', 'name', ('publish', 0, 0, 0, 0, s, ({35: 7}, [(b'k', b'v')]), b'pl')),
